@@ -10,6 +10,7 @@ from typing import TYPE_CHECKING, Any, Literal
 from hypergraph.exceptions import ExecutionError
 from hypergraph.runners._shared.helpers import (
     _UNSET_SELECT,
+    _materialize_select,
     _validate_error_handling,
     _validate_on_missing,
     filter_outputs,
@@ -162,6 +163,7 @@ class AsyncRunnerTemplate(BaseRunner, ABC):
 
         validate_runner_compatibility(graph, self.capabilities)
         validate_node_types(graph, self.supported_node_types)
+        select = _materialize_select(select)
         effective_selected = resolve_runtime_selected(select, graph)
         validate_inputs(
             graph,
@@ -277,6 +279,7 @@ class AsyncRunnerTemplate(BaseRunner, ABC):
         validate_node_types(graph, self.supported_node_types)
         validate_map_compatible(graph)
         _validate_error_handling(error_handling)
+        select = _materialize_select(select)
 
         map_over_list = [map_over] if isinstance(map_over, str) else list(map_over)
         input_variations = list(generate_map_inputs(normalized_values, map_over_list, map_mode, clone))
